@@ -459,7 +459,7 @@ pub(crate) fn burn_value(input: &[u8], inposp: &mut usize, depth: usize) -> Resu
         b'n' => burn_null(input, inposp)?,
         b'-' => burn_number(input, inposp)?,
         _ => {
-            if b"123456789".contains(&input[*inposp]) {
+            if b"0123456789".contains(&input[*inposp]) {
                 burn_number(input, inposp)?
             } else {
                 return Err(
